@@ -31,9 +31,13 @@ namespace OP2Utility::Stream
 	}
 
 	void FileReader::ReadImplementation(void* buffer, std::size_t size) {
+		const auto startPosition = file.tellg();
 		file.read(static_cast<char*>(buffer), size);
 		// Check stream flags for errors
 		if (!file) {
+			// Leave the stream usable at its old position. Otherwise the failure flags stick and every later operation fails.
+			file.clear();
+			file.seekg(startPosition);
 			throw std::runtime_error("Error reading from file");
 		}
 	}
